@@ -151,9 +151,13 @@ func verifC09(kind, V, rounds int, seed uint32) {
 		if r.n0.store.GetEpoch() != 1 {
 			break
 		}
+		nb := len(r.n0.blocks)
 		r.feed(i)
 		if r.n0.store.GetEpoch() != 1 {
 			sealedAfter = i
+			if len(r.n0.blocks) >= nb+2 && r.ref.frames[i] >= r.ref.spf(i)+2 {
+				sym.Reach("sealed-in-cascade-of-multiframe-root")
+			}
 		}
 	}
 	if sealedAfter < 0 {
@@ -206,9 +210,10 @@ func verifC09(kind, V, rounds int, seed uint32) {
 	}
 }
 
-func VerifH_C09_meshV3() { verifC09(0, 3, 5, 1) }
-func VerifH_C09_lcgV3()  { verifC09(4, 3, 7, 7) }
-func VerifH_C09_meshV4() { verifC09(0, 4, 5, 1) }
+func VerifH_C09_meshV3()    { verifC09(0, 3, 5, 1) }
+func VerifH_C09_cascadeV4() { verifC09(9, 4, 0, 1) }
+func VerifH_C09_lcgV3()     { verifC09(4, 3, 7, 7) }
+func VerifH_C09_meshV4()    { verifC09(0, 4, 5, 1) }
 
 func VerifH_C08_laggingV3() { verifC08(2, 3, 9, 1) }
 func VerifH_C08_laggingV4() { verifC08(2, 4, 9, 1) }
